@@ -65,7 +65,7 @@ def body(prop, cfg, tier, seed, replay, scratch, violations, known_hits, notes, 
         ok = False
     if cfg.get("gen_tables") and (not ok) and any("GenTables" in b for b in broken):
         # the generated tables no longer match the model: enumerate the finite domain for the differing entries
-        lpv.lake(["build", "LP.Gen.SignCondition", "LP.Model.Feasible", "LP.Model.IntervalPoly"])
+        lpv.lake(["build", "LP.Gen.SignCondition", "LP.Gen.IntervalCmp", "LP.Gen.IcmpModel", "LP.Model.Feasible", "LP.Model.IntervalPoly"])
         r = lpv.lake(["env", "lean", "--run", "Gen/TableDiff.lean"])
         mism = [l for l in (r.stdout or "").splitlines() if l.startswith("MISMATCH")]
         if mism:
